@@ -237,3 +237,8 @@ Proof.
   exists ([((TL (w_loop w), CRun idx h_none), evs1)] ++ tr), s'. split; [|exact Hc].
   eapply exec_app; [apply exec_one; exact H1|exact He].
 Qed.
+
+Theorem registration_queued : forall s k w, ereachable s ->
+  nth_error (e_workers s) k = Some w -> w_pc w = WWait -> w_opened w = false ->
+  exists l cid, get_loop s (w_loop w) = Some l /\ In (TReg cid (OWorker k)) (l_q l).
+Proof. intros s k w Hr. exact (inv_q_reachable s Hr k w). Qed.
